@@ -775,7 +775,58 @@ func child() {
 	for i := 0; i < a.Scen; i++ {
 		runScenario(run, srv, a.Index, i, a.Acts)
 	}
+	if a.Index%2 == 0 {
+		crowd(run, srv, a.Index)
+	}
 	os.Exit(0)
+}
+
+// crowd: a group of 130 members, and then one more client joins: it is told about every one
+// of them in one burst (more messages than the connection's send queue holds), and it must
+// end up knowing them all.
+func crowd(run *vk.Run, srv *vsrv.Server, batch uint64) {
+	r := run.Rand(9, batch)
+	sc := &scenario{run: run, srv: srv, batch: batch, idx: 900, ids: map[string]*conn{}}
+	const n = 130
+	for i := 0; i <= n; i++ {
+		sc.slots = append(sc.slots, &slot{n: i})
+	}
+	g := groupNames[1]
+	var wg sync.WaitGroup
+	sem := make(chan struct{}, 8)
+	for i := 0; i < n; i++ {
+		wg.Add(1)
+		sem <- struct{}{}
+		go func(s *slot) {
+			defer wg.Done()
+			defer func() { <-sem }()
+			sc.connect(s, r)
+			if s.c != nil {
+				sc.joinAs(s, g, fmt.Sprintf("guest%d", s.n), "anything")
+			}
+		}(sc.slots[i])
+	}
+	wg.Wait()
+	if sc.bad {
+		return
+	}
+	sc.checkpoint(false)
+	late := sc.slots[n]
+	sc.connect(late, r)
+	if late.c != nil {
+		sc.joinAs(late, g, "op1", "pw-op1")
+	}
+	sc.checkpoint(true)
+	if !sc.bad && late.joined {
+		run.Count("crowd_late_joiners_knowing_everybody", 1)
+		run.Count("crowd_members", int64(len(late.view)))
+	}
+	for _, s := range sc.slots {
+		if s.c != nil {
+			s.c.Close()
+		}
+	}
+	run.Eval(n + 1)
 }
 
 func main() {
@@ -825,6 +876,7 @@ func main() {
 	run.FloorCounter("user_change_events", 50)
 	run.FloorCounter("user_delete_events", 50)
 	run.FloorCounter("joins_refused", 1)
+	run.FloorCounter("crowd_late_joiners_knowing_everybody", 1)
 	run.Assume("quiescence is logical: drivers stopped and three consecutive ping/pong barrier rounds over all live clients delivered no event; ground truth is read in-process through Group.GetClients")
 	run.Assume("convergence is bounded progress: a 30 s watchdog on quiescence yields inconclusive, not a violation")
 	run.Finish("exploration", "per batch a fresh server process; per scenario 4-12 websocket clients with distinct ids over 3 groups, 3 concurrent driver goroutines issuing random join/leave/disconnect/kick/op/unop/present/unpresent/shutup/unshutup/setdata actions, 4 check points each; distinct_nontrivial = distinct (client count, final member count) among scenarios that ran to the end; every view entry compared is counted")
